@@ -812,6 +812,11 @@ class Exec:
                     r = z3.BoolVal(False)
             elif isinstance(a.ty, T.Ref) and isinstance(b.ty, T.Ref):
                 r = a.t == b.t
+            elif a.ty == b.ty and a.ty in (T.TREE, T.VAL):
+                # object identity of two values is not part of the value model: an unknown Boolean that can only
+                # hold when the two values are equal (identity implies equality for every value the model has).
+                r = self.fresh_bool('is') if hasattr(self, 'fresh_bool') else z3.FreshConst(z3.BoolSort(), 'is')
+                st.pc.append(z3.Implies(r, equal(a, b)))
             else:
                 raise OutOfSubset('`is` on %s, %s' % (a.ty, b.ty))
             return r if isinstance(op, ast.Is) else z3.Not(r)
@@ -1086,6 +1091,34 @@ class Exec:
         arr = z3.Lambda([j], z3.If(in_range, vt, v.ty.dflt()))
         return SV(rty, rty.mk(seq_len(seq), arr))
 
+    def _dictcomp_tree(self, node, g, m, kname, vname, st):
+        """{k: v for k, v in d.items() if cond}  over a nested dict (Tree): a filter that keeps keys and values"""
+        if not (isinstance(node.key, ast.Name) and node.key.id == kname and vname and
+                isinstance(node.value, ast.Name) and node.value.id == vname):
+            raise OutOfSubset('dict comprehension over a nested dict that is not a plain filter')
+        self.safety(st, T.is_TNode(m.t), 'items()-of-non-dict')
+        k = z3.Const('k!dt%d' % next(_fresh_counter), T.AtomSort)
+        st2 = st.copy()
+        st2.env[kname] = SV(T.ATOM, k)
+        st2.env[vname] = SV(T.TREE, T.tkids(m.t)[k])
+        st2.alias.pop(kname, None)
+        st2.alias.pop(vname, None)
+        has = T.thas(m.t)[k]
+        saved = list(self.guards)
+        self.guards.append(has)
+        n_pc = len(st2.pc)
+        try:
+            cond = z3.BoolVal(True)
+            for c in g.ifs:
+                cond = z3.And(cond, truthy(self.ev(c, st2)))
+        finally:
+            self.guards = saved
+        if st2.pc[n_pc:]:
+            raise OutOfSubset('dict comprehension filter that calls functions by contract')
+        newhas = z3.Lambda([k], z3.And(has, cond))
+        newkids = z3.Lambda([k], z3.If(z3.And(has, cond), T.tkids(m.t)[k], T.TREE.dflt()))
+        return SV(T.TREE, T.TNode(newhas, newkids))
+
     def ev_DictComp(self, node, st, want):
         """{kexpr: vexpr for k, v in m.items() if cond}  with kexpr == k  (filter / map over a dict)"""
         if len(node.generators) != 1:
@@ -1104,6 +1137,8 @@ class Exec:
             if not (isinstance(g.target, ast.Tuple) and len(g.target.elts) == 2):
                 raise OutOfSubset('dict comprehension target')
             kname, vname = g.target.elts[0].id, g.target.elts[1].id
+        if m.ty == T.TREE:
+            return self._dictcomp_tree(node, g, m, kname, vname, st)
         if not isinstance(m.ty, T.Map):
             raise OutOfSubset('dict comprehension over %s' % m.ty)
         if not (isinstance(node.key, ast.Name) and node.key.id == kname):
